@@ -7,7 +7,7 @@ RULE = ("random request histories biased to reverts, no-op rewrites, refused req
         "(sorted (name, sha256(served bytes))) and the four tag views (getctag in both namespaces, sync-token, collection getetag) are recorded; checked: tag -> fingerprint "
         "functional (different contents => different tag), (fingerprint, metadata) -> tag functional on git (return to earlier state => earlier tag), tags unchanged over "
         "intervals containing only reads / refused requests / writes elsewhere, all four views equal; distinct = distinct (collection, fingerprint, metadata) states")
-WEIGHTS = {"put_same": 6, "put_reser": 3, "put_change": 8, "put_revert": 8, "put_new": 8, "delete": 6, "proppatch": 1, "restart": 0.7, "put_invalid": 4, "read": 8,
+WEIGHTS = {"put_same": 6, "put_reser": 3, "put_change": 8, "put_revert": 8, "put_new": 8, "delete": 6, "proppatch": 1, "restart": 0.7, "put_invalid": 4, "read": 8, "locked_writes": 2.0,
            "put_cond": 4, "delete_missing": 2, "delete_cond_stale": 2, "put_uidconflict": 3}
 MON = [monitors.C08Monitor]
 
